@@ -34,11 +34,24 @@ func runC17Cmd(c c17Cmd) error {
 	}
 	var files []string
 	for i, rs := range perFile {
-		p, err := writeResults(dir, fmt.Sprintf("attack%d.%s", i, c.Codec), c.Codec, rs)
-		if err != nil {
-			return err
+		parts := [][]vegeta.Result{rs}
+		if c.Files >= 2 && len(rs) >= 2 {
+			// a results file cut in pieces (split, log rotation): one attack's results come from several inputs, which the
+			// command reads round robin - one more arrival order
+			parts = nil
+			for k := 0; k < c.Files; k++ {
+				if lo, hi := len(rs)*k/c.Files, len(rs)*(k+1)/c.Files; hi > lo {
+					parts = append(parts, rs[lo:hi])
+				}
+			}
 		}
-		files = append(files, p)
+		for k, part := range parts {
+			p, err := writeResults(dir, fmt.Sprintf("attack%d.part%d.%s", i, k, c.Codec), c.Codec, part)
+			if err != nil {
+				return err
+			}
+			files = append(files, p)
+		}
 	}
 	out := filepath.Join(dir, "plot.html")
 	var rerr error
@@ -77,6 +90,7 @@ func TestC17PlotCmd(t *testing.T) {
 			c = c17Cmd{Case: vgen.GenPlotCase(t, 300)}
 		}
 		c.Codec = rapid.SampledFrom([]string{"gob", "csv", "json"}).Draw(t, "codec")
+		c.Files = rapid.SampledFrom([]int{0, 0, 2, 3}).Draw(t, "pieces")
 		nt, _, labels := c.Case.Classify()
 		sig, _ := json.Marshal(c)
 		vh.Case("C17.plotcmd", fmt.Sprintf("%x", vh.Hash(string(sig))), nt, labels...)
